@@ -50,6 +50,8 @@ def write_evidence(pid, tier, seed, units, results, known_hit, violations, undec
     for (u, e) in violations:
         samples.append({"failed_obligation": e["obligation"]})
     obligations += extra.get("obligations", 0); discharged += extra.get("discharged", 0)
+    tabs = extra.get("tables", [])
+    obligations += sum(t.get("entries", 0) for t in tabs); discharged += sum(t.get("checked", 0) - t.get("nbad", len(t.get("bad", []))) for t in tabs if "checked" in t)
     lean = extra.get("lean", [])
     obligations += len(lean); discharged += sum(1 for l in lean if l["status"] == "proved")
     cov = {"obligations": obligations, "discharged": discharged,
@@ -67,6 +69,7 @@ def write_evidence(pid, tier, seed, units, results, known_hit, violations, undec
                                     "statement_sha256": l.get("statement_sha256")} for l in lean]
         cov["trusted_base"].append("Lean 4.33 kernel + Mathlib; vf/leangen.py translator (straight-line field code -> let-chain); the step from the generated ring identities to the Verus contract of the formula functions is NOT machine-checked")
     if extra.get("carve_runs"): cov["known_finding_rederivation"] = extra["carve_runs"]
+    if tabs: cov["table_ground_evaluation"] = [dict(t, back_end="exhaustive ground evaluation (python big integers, tools/check_tables.py); each entry counts as one obligation") for t in tabs]
     ev = {"property_id": pid, "tier": tier, "seed": seed, "level": "proof", "coverage": cov,
           "assumptions": sorted(set(assumptions)), "wall_s": round(wall, 2), "violations": len(violations)}
     os.makedirs(os.path.join(VERIF, "evidence"), exist_ok=True)
